@@ -69,6 +69,10 @@ pub fn permute_keep_sells(l: &Ledger, r: &mut Rng) -> Ledger {
 fn same(a: &Out<RRep>, b: &Out<RRep>, legs_exact: bool) -> Option<String> {
     let mut p = Proj::full();
     p.legs_exact = legs_exact;
+    // a refused ledger has no report; with two uncovered securities on one day, which of them the
+    // error names follows the line order — the property speaks of accepted ledgers, so only the
+    // refusal itself (its kind) is compared
+    p.err_detail = false;
     // two runs of the same code: any difference at all is a finding, but compare through the same
     // projection machinery (tolerance only absorbs the decimal residue of differently ordered sums)
     rep::diff_report(a, b, &p).map(|s| s.replace("impl ", "variant ").replace("model ", "base "))
